@@ -14,7 +14,7 @@ POST = "postcondition oracle wrapped around the real functions, evaluated on eve
 
 CHECKS = {
     "C01": dict(tech="runtime monitoring: " + HIST, ref="DESIGN.md 4/C01",
-                text="held on the histories explored: hundreds (quick) to thousands (thorough) of generated hostile histories on the real Hypergraph, each event judged against the abstract model and ~50 derived queries; exploration, not proof",
+                text="held on the histories explored: ~1 200 (quick) to ~20 000 generated hostile histories plus EVERY history of 4 calls over a fixed 18-call alphabet (thorough, exhaustive for that sub-space), scripted hub and scale histories, tuple labels, weights handed to unweighted containers; each event judged against the abstract model and ~60 derived queries (keyword and positional filters, listings held across later calls); exploration, not proof",
                 note="trusts hgxmon/models.py as the specification and the leniency list of DESIGN.md 2.3; only the public API is read"),
     "C02": dict(tech="runtime monitoring: " + HIST, ref="DESIGN.md 4/C02",
                 text="held on the generated histories of DirectedHypergraph (direction pairs, reversed keys, role-wise incidence, node metadata survival); exploration",
@@ -22,7 +22,7 @@ CHECKS = {
     "C03": dict(tech="runtime monitoring: " + HIST + "; time windows, snapshots and aggregate() recomputed from the observation after each event",
                 ref="DESIGN.md 4/C03",
                 text="held on the generated histories of TemporalHypergraph incl. all sampled windows/widths; exploration",
-                note="same trusted base as C01; times 0..6"),
+                note="same trusted base as C01; times 0..6 and, in fixed cases, time stamps up to 2**64 and beyond"),
     "C04": dict(tech="runtime monitoring: " + HIST + "; aggregated_hypergraph() and edge_overlap recomputed after each event, non-mutation observed",
                 ref="DESIGN.md 4/C04",
                 text="held on the generated histories of MultiplexHypergraph; exploration",
@@ -30,11 +30,11 @@ CHECKS = {
     "C05": dict(tech="runtime monitoring: " + POST + " (subhypergraph, subhypergraph_by_orders, get_edges(subhypergraph=True), subhypergraph_largest_component, copy); expected selection recomputed from the source's public observation; source re-observed and re-hashed after each call",
                 ref="DESIGN.md 4/C05",
                 text="held on the explored sources (history end states with id gaps and metadata) x all enumerated selections; exploration",
-                note="sources <= 8 nodes; all node subsets only when <= 6 nodes"),
+                note="most sources <= 8 nodes (all node subsets only when <= 6 nodes); fixed cases with 30-120 nodes, hubs and core-periphery shapes; nested metadata edited in place after copy()"),
     "C06": dict(tech="runtime monitoring: round-trip postcondition oracle on save_hypergraph/load_hypergraph (json + hgx) with non-mutation observation and independent record-level parse of the written file; generated .hgr files and HIF documents checked against their abstract content",
                 ref="DESIGN.md 4/C06",
                 text="held on the explored objects of all four types (history end states, replaced/cleared hypergraph metadata, isolated nodes) and on generated .hgr / HIF inputs; exploration",
-                note="labels int/str; user metadata avoids reserved keys; .hgr header single-space separated; HIF duplicate incidence sets checked for existence only"),
+                note="labels int/str; user metadata may use the reserved words weight/time/layer with disagreeing values; loaded objects are edited and round-tripped again; .hgr header single-space separated; HIF duplicate incidence sets checked for existence only"),
     "C07": dict(tech="runtime monitoring: metamorphic trace check over pairs of executions of hash_hypergraph (same typed content via 4-8 different construction histories => equal hash; each single-element edit => different hash; per-process obs->hash and hash->obs tables; observation before == after hashing)",
                 ref="DESIGN.md 4/C07",
                 text="held on the explored contents of all four container types and all applicable single edits; exploration",
@@ -42,7 +42,7 @@ CHECKS = {
     "C08": dict(tech="runtime monitoring: " + POST + " (measures.degree.*, utils.cc.* and the container methods) against set-arithmetic degrees and union-find components, for every filter and node",
                 ref="DESIGN.md 4/C08",
                 text="held on the explored hypergraphs x every order/size filter x every node, through functions and methods; exploration",
-                note="<= 8 nodes; reference union-find in hgxmon/refs.py"),
+                note="most inputs <= 8 nodes, fixed cases with 60-120 nodes and core-periphery shapes, tuple labels; every hypergraph on 4 fixed nodes in the thorough tier; reference union-find in hgxmon/refs.py"),
     "C09": dict(tech="runtime monitoring: " + POST + " (hypergraphx.linalg and the matrix methods): returned mapping checked as a bijection, dense reference matrices built by definition from the public observation, exact comparison",
                 ref="DESIGN.md 4/C09",
                 text="held on the explored hypergraphs (non-contiguous/string labels, all orders present and absent, dense stress family, uniform tensors, temporal snapshots) except the open known finding (uint8 wrap-around at 256 shared hyperedges); exploration",
@@ -50,7 +50,7 @@ CHECKS = {
     "C10": dict(tech="runtime monitoring: " + POST + " (bipartite_projection, clique_projection, line_graph, directed_line_graph, simplicial_complex): vertices, id tables, adjacency and weights recomputed from the incidence structure; thresholds chosen to hit similarity values exactly",
                 ref="DESIGN.md 4/C10",
                 text="held on the explored hypergraphs / directed hypergraphs x both distances x all thresholds x weighted both; exploration",
-                note="<= 8 nodes, sizes 1-5; empty face of the simplicial complex tolerated"),
+                note="most inputs <= 8 nodes, sizes 1-5; fixed cases with 30-50 nodes and with hyperedges sharing 256-258 nodes; every hypergraph on 4 fixed nodes in the thorough tier; empty face of the simplicial complex tolerated"),
     "C11": dict(tech="runtime monitoring: postcondition oracle comparing compute_motifs with brute-force enumeration over all 3-/4-subsets + metamorphic pair (relabelling, insertion order); thorough tier enumerates every connected labelled pattern on 3 and 4 nodes as single-motif inputs; directed census checked for relabelling invariance, canonical representatives and ignoring larger hyperedges",
                 ref="DESIGN.md 4/C11",
                 text="held on the explored inputs; the single-motif sub-space (12 + 1990 patterns) is covered exhaustively in the thorough tier; exploration",
@@ -70,7 +70,7 @@ CHECKS = {
     "C15": dict(tech="runtime monitoring: postcondition oracles on HyMMSBM closed forms against brute-force sums over all possible hyperedges; trace monitor wrapped around every _w_update/_u_update of fit() (finite, non-negative, symmetric/diagonal, supplied parameters untouched) and public replays n_iter=1..T checked for ascent of the exact Poisson likelihood",
                 ref="DESIGN.md 4/C15",
                 text="held on the explored parameter sets and fit configurations, except three open known findings (N==2 division, MAP-EM under a positive prior, NaN after community underflow); exploration",
-                note="rtol 1e-9, N <= 8; differences between tol and 100*tol are inconclusive, not held"),
+                note="rtol 1e-9 with an absolute term scaled by the cancelling magnitudes; brute force for N <= 8, enumeration-free closed forms for N up to 1500; differences between tol and 100*tol are inconclusive, not held"),
     "C16": dict(tech="runtime monitoring: postcondition oracle on every hypergraph yielded by HyMMSBMSampler.sample + wrapper on _mcmc_step watching the chain state after every step (diagnostic) + metamorphic pair of equal samplers (same parameters and seed)",
                 ref="DESIGN.md 4/C16",
                 text="held on the explored sampler configurations (initial hypergraph / sequences / model), 3-4 samples each; exploration over random outcomes",
@@ -82,7 +82,7 @@ CHECKS = {
     "C18": dict(tech="runtime monitoring: " + POST + " (transition_matrix, RW_stationary_state, random_walk_density, random_walk, simplicial_contagion) + adversarial scripted replacement of numpy.random.random + sys.monitoring LINE probe recording the branches driven inside the contagion sweep + 15-line synchronous reference for the deterministic regimes",
                 ref="DESIGN.md 4/C18",
                 text="held on the explored connected hypergraphs and contagion configurations under seeded and scripted random streams; exploration",
-                note="N <= 9; 'for all seeds' decided for the seeds and scripted streams run"),
+                note="most inputs N <= 9, fixed cases with 60-120 nodes, core-periphery shapes and a node pair in 286 hyperedges; 'for all seeds' decided for the seeds and scripted streams run"),
     "C19": dict(tech="runtime monitoring: postcondition oracle on filter_hypergraph (expected result from the abstract model's remove-node relation + criteria on the public observation, all four container types) and on get_svh (exact rational binomial tail, threshold recomputed from the reported p-values, mp=True compared in a subprocess)",
                 ref="DESIGN.md 4/C19",
                 text="held on the explored containers x criteria x modes and weighted hypergraphs; exploration",
@@ -90,7 +90,7 @@ CHECKS = {
     "C20": dict(tech="runtime monitoring: postcondition oracles on the centrality functions against networkx on an independently built s-line graph / bipartite graph, scipy expm, eigen-equation residuals for CEC/HEC, and metamorphic relabelled copies",
                 ref="DESIGN.md 4/C20",
                 text="held on the explored hypergraphs, temporal hypergraphs (int and str labels) and connected uniform hypergraphs x 3 seeds; exploration",
-                note="CEC residual 1e-5*lambda, HEC ratio spread 1e-3; bands above are inconclusive"),
+                note="CEC residual 1e-5*lambda (up to 3e-5 inconclusive), HEC ratio spread 1e-3 (up to 1e-1 inconclusive)"),
 }
 
 PENDING = {}
